@@ -48,7 +48,7 @@ func DrawScriptConfig(r *prng.Rand) ScriptConfig {
 	if r.Chance(1, 40) {
 		c.MaxStmts = 0
 	}
-	c.Fat = r.Chance(1, 40)
+	c.Fat = r.Chance(1, 60)
 	c.Exotic = r.Chance(1, 8)
 	c.BOM = r.Chance(1, 50)
 	if r.Chance(1, 25) {
@@ -102,7 +102,7 @@ func GenScript(r *prng.Rand, cfg ScriptConfig) *Script {
 	if cfg.Fat && len(sc.Stmts) > 0 {
 		// a statement of several KiB, no line of which is long
 		ts := toks(g.pick(Tables), "|", "where", g.pick(Columns), "in", "(")
-		n := r.Range(600, 3000)
+		n := r.Range(150, 700)
 		for i := 0; i < n; i++ {
 			if i > 0 {
 				ts = append(ts, t(","))
